@@ -106,6 +106,24 @@ fn check_node(src: &str, l: &mut Local) -> Outcome {
             )
         },
     }
+    // through RON, the format of evalexpr's own serde tests (its string escaping and its error type)
+    if let Ok(ron_text) = ron::to_string(src) {
+        let via_ron: Result<Tree, ron::error::SpannedError> = ron::from_str(&ron_text);
+        let ok = match (&built, &via_ron) {
+            (Ok(a), Ok(b)) => tree_same(a, b),
+            (Err(e), Err(m)) => m.code.to_string() == e.to_string(),
+            _ => false,
+        };
+        if !ok {
+            return fail(
+                "C16/deserialization through RON differs",
+                format!("{:?}", built.as_ref().map(|_| "tree").map_err(|e| e.to_string())),
+                format!("{:?}", via_ron.as_ref().map(|_| "tree").map_err(|e| e.code.to_string())),
+                src_case(src),
+                src.len(),
+            );
+        }
+    }
     // through serde_json's string encoding
     let encoded = serde_json::to_string(src).expect("a str serialises to JSON");
     let via_json: Result<Tree, serde_json::Error> = serde_json::from_str(&encoded);
@@ -223,6 +241,20 @@ fn check_context(c: &Ctx, l: &mut Local) -> Outcome {
             Err(p) => return fail(format!("C16/panic {}", p.signature()), "no panic", p.message, ctx_case(c), c.vars.len()),
             Ok(Err(e)) => return fail("C16/context round trip (JSON) fails", "Ok(context)", e, ctx_case(c), c.vars.len()),
             Ok(Ok(back)) => verify(&back, "JSON")?,
+        }
+    }
+    // RON (text), the format of evalexpr's own serde tests: finite floats only (RON prints floats
+    // in decimal; what it does with NaN payloads and infinities is its own business)
+    if all_finite(c) {
+        l.label("RON round trip (all floats finite)");
+        let r = vcore::catch(|| -> Result<HCtx, String> {
+            let text = ron::to_string(&real).map_err(|e| format!("serialize: {}", e))?;
+            ron::from_str::<HCtx>(&text).map_err(|e| format!("deserialize: {} from {}", e, text))
+        });
+        match r {
+            Err(p) => return fail(format!("C16/panic {}", p.signature()), "no panic", p.message, ctx_case(c), c.vars.len()),
+            Ok(Err(e)) => return fail("C16/context round trip (RON) fails", "Ok(context)", e, ctx_case(c), c.vars.len()),
+            Ok(Ok(back)) => verify(&back, "RON")?,
         }
     }
     // a value alone round-trips too
